@@ -164,6 +164,11 @@ var cases = []tcase{
 	{name: "caller continues normally after handled exception", src: "如何F？\n    令Q = 1\n    抛出异常：“x”！\n    拦截异常：\n        输出 5\n令R = （F）\n输出 R", want: 5},
 	{name: "caller local survives callee handled exception", src: "如何F？\n    抛出异常：“x”！\n    拦截异常：\n        输出 5\n令K = 9\n令R = （F）\n输出 K", want: 9},
 	{name: "handler-local name invisible afterwards", src: "如何F？\n    抛出异常：“x”！\n    拦截异常：\n        令H = 4\n        输出 5\n令R = （F）\n输出 H", wantErr: true},
+	{name: "method input invisible after a handled built-in failure", src: "如何F？\n    输入箱号\n    以箱号（开箱）\n    输出 1\n    拦截异常：\n        输出 5\n令R = （F：3）\n输出 箱号", wantErr: true},
+	{name: "method local invisible after a handled built-in failure in a nested block", src: "如何F？\n    输入箱号\n    如果 真：\n        令备注 = 7\n        以箱号（开箱）\n    输出 1\n    拦截异常：\n        输出 5\n令R = （F：3）\n输出 备注", wantErr: true},
+	{name: "method local invisible after a handled built-in failure in a loop", src: "如何F？\n    输入箱号\n    以项遍历【1，2】：\n        令备注 = 项\n        以“abc”（取样：0、1）\n    输出 1\n    拦截异常：\n        输出 5\n令R = （F：3）\n输出 备注", wantErr: true},
+	{name: "caller may redeclare a name the failed method used", src: "如何F？\n    输入箱号\n    如果 真：\n        以箱号（开箱）\n    输出 1\n    拦截异常：\n        输出 5\n令R = （F：3）\n令箱号 = 9\n输出 箱号", want: 9},
+	{name: "value after a handled failure of a global function", src: "如何F？\n    输入箱号\n    每当 真：\n        令备注 = 7\n        （显示：未有此名）\n    输出 1\n    拦截异常：\n        输出 5\n令R = （F：3）\n输出 R", want: 5},
 	{name: "recursion keeps per-call names apart", src: "如何F？\n    输入N\n    如果 N == 0：\n        输出 0\n    令M = N\n    令S = （F：N - 1）\n    输出 M + S\n输出（F：3）", want: 6},
 }
 
